@@ -611,7 +611,7 @@ pub fn worker_loop(check: impl Fn(&Value, &mut Ctx)) {
 pub fn isolated_sweep(
     name: &str,
     worker_name: &str,
-    states: &[Value],
+    states: &[String],
     batch: usize,
     wall: Duration,
     per_state_timeout: Duration,
@@ -630,7 +630,8 @@ pub fn isolated_sweep(
     });
     let done = std::sync::atomic::AtomicU64::new(0);
     let capped = std::sync::atomic::AtomicBool::new(false);
-    let chunks: Vec<&[Value]> = states.chunks(batch.max(1)).collect();
+    // states are compact JSON lines (a serde_json::Value tree per state costs ~10x the memory)
+    let chunks: Vec<&[String]> = states.chunks(batch.max(1)).collect();
     chunks.par_iter().for_each(|chunk| {
         let mut offset = 0usize;
         while offset < chunk.len() {
@@ -655,7 +656,7 @@ pub fn isolated_sweep(
                 }
             };
             let mut stdin = child.stdin.take().unwrap();
-            let payload: String = rest.iter().map(|s| format!("{}\n", serde_json::to_string(s).unwrap())).collect();
+            let payload: String = rest.iter().map(|s| format!("{s}\n")).collect();
             let writer = std::thread::spawn(move || {
                 let _ = stdin.write_all(payload.as_bytes());
             });
@@ -731,11 +732,12 @@ pub fn isolated_sweep(
             };
             let mut ctx = Ctx::default();
             let st = &rest[culprit.min(rest.len() - 1)];
+            let st_json: Value = serde_json::from_str(st).unwrap_or(Value::Null);
             ctx.violation(
                 format!("{crash_prefix}/{}", if timed_out { "no-termination" } else { "crash" }),
                 format!("{how} while evaluating this state (stack overflow, abort or endless loop)"),
-                json!({"check": worker_name, "state": st}),
-                serde_json::to_string(st).map(|s| s.len()).unwrap_or(0),
+                json!({"check": worker_name, "state": st_json}),
+                st.len(),
             );
             absorb(&shared, ctx);
             done.fetch_add(1, std::sync::atomic::Ordering::Relaxed);
@@ -762,7 +764,7 @@ pub fn isolated_sweep(
         per_depth: vec![n],
         excluded: sh.excluded,
         notes: sh.notes,
-        samples: states.iter().take(3).cloned().collect(),
+        samples: states.iter().take(3).filter_map(|s| serde_json::from_str(s).ok()).collect(),
         violations: sh
             .violations
             .into_iter()
